@@ -146,8 +146,10 @@ func c14Pod(c *c14Ev) *corev1.Pod {
 			}
 		}
 		pod.Spec.Containers = append(pod.Spec.Containers, ct)
-		pod.Status.ContainerStatuses = append(pod.Status.ContainerStatuses, corev1.ContainerStatus{
-			Name: cc.Name, ContainerID: "containerd://" + cc.Name + "-id"})
+		// the status list is in another order than the spec list (the kubelet sorts it by its own key; nothing may rely
+		// on positions agreeing): here reversed
+		pod.Status.ContainerStatuses = append([]corev1.ContainerStatus{{
+			Name: cc.Name, ContainerID: "containerd://" + cc.Name + "-id"}}, pod.Status.ContainerStatuses...)
 	}
 	return pod
 }
@@ -817,6 +819,25 @@ func TestVerifC14(t *testing.T) {
 			}
 			sg = mk(c14Cont{Req: x, Lim: x, Mem: x}, second)
 			c14Env(&sg.reset, e)
+			r.run(sg)
+		}
+	}
+
+	// (g) ratios that are NOT exact in binary (1.15, 2.3, 4.35 - as the node annotation carries them, two decimals): the
+	//     hook divides in float64, so only amounts are used whose exact quotient is never an integer (limits 1000 / 2500
+	//     alone and in pairs: the sums are 11, 16, 22, 4, 9 mod 23 and 1 or 2 mod 3), where floor / ceil of the float
+	//     quotient and of the exact quotient agree; an exactly divisible pair could come out one microsecond higher
+	for i, rt := range [][2]int64{{23, 20}, {23, 10}, {87, 20}} {
+		for j, cs := range [][]c14Cont{
+			{{Req: 1000, Lim: 1000, Mem: 1 << 20}},
+			{{Req: 2500, Lim: 2500, Mem: 1 << 20}},
+			{{Req: 1000, Lim: 1000, Mem: 1 << 20}, {Req: 2500, Lim: 2500, Mem: 1 << 20}},
+			{{Req: 2500, Lim: 2500, Mem: 1 << 20}, {Req: 2500, Lim: 2500, Mem: c14Absent}},
+			{{Req: 1000, Lim: 1000, Mem: 1 << 20}, {Req: 1000, Lim: 1000, Mem: 1 << 20}},
+		} {
+			sg := mk(cs...)
+			sg.reset.Cfs, sg.reset.CfsSrc = true, []string{"default", "policy"}[(i+j)%2]
+			sg.reset.Rnum, sg.reset.Rden = rt[0], rt[1]
 			r.run(sg)
 		}
 	}
